@@ -29,6 +29,8 @@ func main() {
 		cliMain(os.Args[2:])
 	case "gbrec":
 		gbrecMain(os.Args[2:])
+	case "parse":
+		parseMain(os.Args[2:])
 	default:
 		fmt.Fprintf(os.Stderr, "unknown driver %q\n", os.Args[1])
 		os.Exit(2)
